@@ -52,6 +52,8 @@ def verify(curve, pub, sig, msg):
             r, s = int.from_bytes(sig[:32], 'big'), int.from_bytes(sig[32:], 'big')
             if not (0 < r < n and 0 < s < n):
                 return False
+            if curve == b'sp' and s > n // 2:
+                return False      # libsecp256k1 (what Tezos verifies tz2 signatures with) only accepts the lower-S form
             pk = ec.EllipticCurvePublicKey.from_encoded_point(c(), pub)
             pk.verify(utils.encode_dss_signature(r, s), blake2b_256(msg), ec.ECDSA(utils.Prehashed(hashes.SHA256())))
             return True
